@@ -388,6 +388,10 @@ func (g *caseGen) one() {
 		g.probe()
 		return
 	}
+	if r.Chance(1, 70) {
+		g.audiences()
+		return
+	}
 	switch k := r.Intn(100); {
 	case k < 14: // record a question (often one recorded before: idempotent / renewal)
 		q := g.relatedQ()
@@ -552,6 +556,46 @@ func (g *caseGen) alsoWire(q qspec, t int64) {
 	}
 }
 
+// one question fails for ONE audience (the shared one or an ECS source prefix);
+// at the same instant every other audience asks through every Store / ServeDNS
+// read route: only the audience that failed may be suppressed.
+func (g *caseGen) audiences() {
+	r := g.r
+	q := g.relatedQ()
+	if c, ok := canonRaw(q.name); !ok || len(c) > 200 || q.name == "" {
+		q.name = "aud.example.com."
+	} else if _, ok := wireOfPres(q.name); !ok {
+		q.name = "aud.example.com."
+	}
+	q.t, q.c = vlib.Pick(r, []int{1, 28, 16}), 1
+	auds := []string{"-", "4:cb007100/24", "4:cb007200/24", "4:0a010000/16", "6:20010db8000000000000000000000000/32", "4:0a010203/0"}
+	q.scope = vlib.Pick(r, auds)
+	g.qs = append(g.qs, q)
+	if r.Bool() {
+		g.out("fail srecq %s %d %d", q, g.t, r.Intn(3))
+	} else {
+		g.out("fail write - none %s %d %d servfail", q, g.t, r.Intn(3))
+	}
+	for _, a := range auds {
+		o := q
+		o.scope = a
+		switch r.Intn(4) {
+		case 0:
+			g.out("fail slookup %s %d", o, g.t)
+		case 1:
+			g.out("fail sretrykey %s %d", o, lastRetry+i63(r, 2))
+		case 2:
+			if a != "-" && a != "4:0a010203/0" {
+				g.out("fail eserve %s %d local:attempt 0", o, g.t)
+			} else {
+				g.out("fail serve %s %d %d %s %s %d local:attempt", hexName(o.name), o.t, o.c, vlib.B(o.cd), vlib.B(r.Bool()), g.t)
+			}
+		case 3:
+			g.out("fail probe %d 2 %s %s", g.t, o, q)
+		}
+	}
+}
+
 var probeBudget int
 
 // several clients arriving together behind one retained failure generation:
@@ -593,6 +637,10 @@ func (g *caseGen) probe() {
 			q.cd = r.Bool()
 		case 4:
 			q.name = fmt.Sprintf("x%d.other%d.example.com.", r.Intn(2), r.Intn(2))
+		}
+		if r.Chance(1, 5) { // an apex question: the failed zone's own name (SOA / NS / DNSKEY / A …)
+			q.name = zone
+			q.t = vlib.Pick(r, []int{6, 2, 48, 1})
 		}
 		reqs = append(reqs, q.String())
 	}
@@ -881,6 +929,9 @@ func genL3(r *vlib.R, tier string, emit func(string), n *int) {
 		emit(fmt.Sprintf("fail l3id %s %s %s %d", vlib.Pick(r, []string{"off", "off", "on"}), vlib.B(i%2 == 1 || r.Chance(1, 4)), path, vlib.Pick(r, []int{1, 28, 16})))
 		*n--
 	}
+	// impatient clients on a slow healthy zone: deadlines are request-local (circuit breaker, failure state)
+	emit(fmt.Sprintf("fail l3deadline %d %d %d %d", 6+r.Intn(2), 250+r.Intn(100), 40+r.Intn(60), 1+r.Intn(2)))
+	*n--
 	emit("fail l3zone s,r,s,s 0") // control: every server fails, the zone failure may be recorded
 	emit(fmt.Sprintf("fail l3zone f,%s,%s 0", vlib.Pick(r, fails), vlib.Pick(r, fails)))
 	*n -= 2
